@@ -138,3 +138,31 @@ package consensus
 //@   loop 0 invariant [aborted-blocks-are-off-chain] forall j int :: {traceat(pruned, 0, j)} old(tracelen(pruned)) <= j && j < tracelen(pruned) ==> pblk(j) != nil && pblk(j).view > old(cm.blockchain.pruneHeight) && !blockchain.sancp(cm.blockchain, cm.viewStates.committedBlock, pblk(j).hash, old(cm.blockchain.pruneHeight))
 //@   loop 0 invariant [aborts-are-their-batches] forall j int :: {traceat(pruned, 0, j)} old(tracelen(pruned)) <= j && j < tracelen(pruned) ==> istype(traceev(added, 0, tracelen(added) - (tracelen(pruned) - j)), clientpb.AbortEvent) && as(traceev(added, 0, tracelen(added) - (tracelen(pruned) - j)), clientpb.AbortEvent).Batch == pblk(j).batch
 //@   loop 0 invariant [no-other-aborts] forall k int :: {traceat(added, 0, k)} old(tracelen(added)) <= k && k < tracelen(added) - rangeindex - 1 ==> !istype(traceev(added, 0, k), clientpb.AbortEvent)
+
+// ---- markProposed (C06/C15: "commands of the certified chain are marked as proposed"). The
+// ghost trace `mb` records the blocks whose batch is handed to CommandCache.Proposed: they are
+// the block named by the high QC and, following certificates (not parents), every certified
+// ancestor whose view is above the previous mark; all their commands end up marked; the mark
+// moves to the given view exactly on success.
+//@ pure func mblk(k int) *hotstuff.Block = asptr(traceat(mb, 0, k), hotstuff.Block)
+//@ func (*Proposer).markProposed property C06,C15
+//@   requires p.blockchain != nil && blockchain.binv(p.blockchain) && blockchain.bmaps(p.blockchain) && p.blockchain.sender != nil && p.blockchain.eventLoop != nil && p.commandCache != nil && p.commandCache.clientSeqNumbers != nil
+//@   requires [decoded-batches] forall b *hotstuff.Block :: {b.batch} b != nil && b.batch != nil ==> clientpb.cnonnil(b.batch.Commands)
+//@   ghost at call Commands :: emit mb(op0)
+//@   ghost at call QuorumCert :: assert forall k int, i int :: {mblk(k).batch.Commands[i]} old(tracelen(mb)) <= k && k < tracelen(mb) && mblk(k).batch != nil && 0 <= i && i < len(mblk(k).batch.Commands) ==> clientpb.isdupc(p.commandCache, mblk(k).batch.Commands[i])
+//@   ensures [mark] result == nil ==> p.lastProposed == view
+//@   ensures [error-keeps-mark] result != nil ==> p.lastProposed == old(p.lastProposed)
+//@   ensures [starts-at-certified-block] tracelen(mb) > old(tracelen(mb)) ==> mblk(old(tracelen(mb))) != nil && mblk(old(tracelen(mb))).hash == highQCBlockHash
+//@   ensures [follows-certificates] forall k int :: {traceat(mb, 0, k), traceat(mb, 0, k + 1)} old(tracelen(mb)) <= k && k + 1 < tracelen(mb) ==> mblk(k + 1).hash == mblk(k).cert.hash
+//@   ensures [only-above-the-mark] forall k int :: {traceat(mb, 0, k)} old(tracelen(mb)) <= k && k < tracelen(mb) ==> mblk(k) != nil && mblk(k).view > old(p.lastProposed)
+//@   ensures [marks-only-grow] forall id uint32 :: {p.commandCache.clientSeqNumbers[id]} p.commandCache.clientSeqNumbers[id] >= old(p.commandCache.clientSeqNumbers[id])
+//@   ensures [grows] tracelen(mb) >= old(tracelen(mb))
+//@   ensures [all-marked] forall k int, i int :: {mblk(k).batch.Commands[i]} old(tracelen(mb)) <= k && k < tracelen(mb) && mblk(k).batch != nil && 0 <= i && i < len(mblk(k).batch.Commands) ==> clientpb.isdupc(p.commandCache, mblk(k).batch.Commands[i])
+//@   loop 0 invariant [all-marked] forall k int, i int :: {mblk(k).batch.Commands[i]} old(tracelen(mb)) <= k && k < tracelen(mb) && mblk(k).batch != nil && 0 <= i && i < len(mblk(k).batch.Commands) ==> clientpb.isdupc(p.commandCache, mblk(k).batch.Commands[i])
+//@   loop 0 invariant [grows] tracelen(mb) >= old(tracelen(mb)) && qcBlock != nil && p.lastProposed == old(p.lastProposed)
+//@   loop 0 invariant [store] blockchain.binv(p.blockchain) && blockchain.bmaps(p.blockchain)
+//@   loop 0 invariant [starts-at-certified-block] (tracelen(mb) == old(tracelen(mb)) ==> qcBlock.hash == highQCBlockHash) && (tracelen(mb) > old(tracelen(mb)) ==> mblk(old(tracelen(mb))) != nil && mblk(old(tracelen(mb))).hash == highQCBlockHash && qcBlock.hash == mblk(tracelen(mb) - 1).cert.hash)
+//@   loop 0 invariant [follows-certificates] forall k int :: {traceat(mb, 0, k), traceat(mb, 0, k + 1)} old(tracelen(mb)) <= k && k + 1 < tracelen(mb) ==> mblk(k + 1).hash == mblk(k).cert.hash
+//@   loop 0 invariant [only-above-the-mark] forall k int :: {traceat(mb, 0, k)} old(tracelen(mb)) <= k && k < tracelen(mb) ==> mblk(k) != nil && mblk(k).view > old(p.lastProposed)
+//@   loop 0 invariant [marks-only-grow] forall id uint32 :: {p.commandCache.clientSeqNumbers[id]} p.commandCache.clientSeqNumbers[id] >= old(p.commandCache.clientSeqNumbers[id])
+//@   modifies p.lastProposed, p.commandCache.clientSeqNumbers[*], trace(mb), p.blockchain.blocks[*], p.blockchain.blockAtHeight[*], p.blockchain.pendingFetch[*], p.blockchain.eventLoop.handlers[*], alloc
